@@ -306,7 +306,8 @@ HARNESSES = [
 
 BOUNDS = dict(quick="n <= 2 samples, A <= 2 annotators, K <= 3 classes; encodings float/NaN, int/-1, str/'nan'; all label and "
                     "missing patterns (enumerated by forking), weights symbolic >= 0 or NaN, symbolic seed",
-              thorough="n <= 3, A <= 3, K <= 3, all four encodings (incl. object/None)",
+              thorough="label matrices 2x2, 1x2, 3x2, 2x3 (K=2) and 2x2 (K=3), all four encodings (3x2 / 2x3: two encodings for "
+                       "majority_vote, and unweighted only - the weighted ones exceed the per-configuration budget)",
               outside="larger matrices; negative weights (not claimed); classes=None inference is exercised only via majority_vote")
 ASSUMPTIONS = [
     "sklearn LabelEncoder / confusion_matrix / check_array replaced by their documented contracts (symx/stubs.py)",
